@@ -174,11 +174,15 @@ class Comm:
         if int(np.prod(dims)) != self._s.n:
             raise ValueError('Create_cart: dims %r do not multiply to communicator size %d' % (dims, self._s.n))
 
+        # reorder=True allows the library to place the processes freely in the topology: this one does use the permission
+        # (it reverses the ranks), as topology-aware libraries do; code that relies on the old ranks is then wrong
+        reorder = bool(reorder)
+
         def fin(s, items):
-            s.scratch = _Shared(s.world, '%s.cart%d' % (s.id, s.nderived), s.members)
+            s.scratch = _Shared(s.world, '%s.cart%d' % (s.id, s.nderived), list(reversed(s.members)) if reorder else s.members)
             s.nderived += 1
-        self._collective(('Create_cart', tuple(dims)), None, fin)
-        return Comm(self._s.scratch, self._rank, dims)
+        self._collective(('Create_cart', tuple(dims), reorder), None, fin)
+        return Comm(self._s.scratch, (self._s.n - 1 - self._rank) if reorder else self._rank, dims)
 
     def Get_coords(self, rank):
         return [int(c) for c in np.unravel_index(rank, self._dims)]
